@@ -20,6 +20,8 @@ import Mathlib.Tactic.Push
 set_option linter.unusedSimpArgs false
 set_option linter.unusedSectionVars false
 set_option linter.unusedVariables false
+set_option linter.unusedTactic false
+set_option linter.unreachableTactic false
 
 namespace SparkxVerif.SmearGen
 open SparkxVerif.Lattice (Err Lat Geom mkGeom pyGet ndindex flat unflat npAxis absG)
@@ -432,4 +434,279 @@ theorem initAttrs_gen (a b c d e f : K) (nx ny nz : Nat) (ox oy oz : Option K) :
   cases ox <;> cases oy <;> cases oz <;> rfl
 
 end field
+/-! ### `add_same_spaced_grid` -/
+section same
+open Smear (Axis Part linspace zero nearest closest minP maxP placeAxis tempCoords targets target addAt edgeTolFactor)
+variable {K : Type} [Field K] [LinearOrder K] [IsStrictOrderedRing K]
+
+/-- where one temporary coordinate `t` lands on axis `A` when the temporary lattice is centred at `c`
+(the function `placeAxis` maps over the temporary coordinates) -/
+def place1 (A : Axis K) (c t : K) : Option Nat :=
+  if t + c < A.lo - (edgeTolFactor : K) * A.spacing then none
+  else if A.hi + (edgeTolFactor : K) * A.spacing < t + c then none
+  else some (nearest A.values (minP (maxP (t + c) A.lo) A.hi))
+
+theorem placeAxis_eq_map (A : Axis K) (num : Nat) (x : K) :
+    placeAxis A num x = (tempCoords A num).map (place1 A (A.values.getD (closest A.values x) zero)) := rfl
+
+/-- the temporary lattice of half-widths `a b c` around the origin, as a model lattice -/
+def tempL (M : Smear.Lattice K) (a b c : Nat) : Smear.Lattice K :=
+  ⟨⟨-(((a : Nat) : K) * M.X.spacing), ((a : Nat) : K) * M.X.spacing, 2 * a + 1⟩,
+   ⟨-(((b : Nat) : K) * M.Y.spacing), ((b : Nat) : K) * M.Y.spacing, 2 * b + 1⟩,
+   ⟨-(((c : Nat) : K) * M.Z.spacing), ((c : Nat) : K) * M.Z.spacing, 2 * c + 1⟩⟩
+
+@[simp] theorem tempL_Xn (M : Smear.Lattice K) (a b c : Nat) : (tempL M a b c).X.n = 2 * a + 1 := rfl
+@[simp] theorem tempL_Yn (M : Smear.Lattice K) (a b c : Nat) : (tempL M a b c).Y.n = 2 * b + 1 := rfl
+@[simp] theorem tempL_Zn (M : Smear.Lattice K) (a b c : Nat) : (tempL M a b c).Z.n = 2 * c + 1 := rfl
+theorem tempL_X (M : Smear.Lattice K) (a b c : Nat) : (tempL M a b c).X.values = tempCoords M.X a := rfl
+theorem tempL_Y (M : Smear.Lattice K) (a b c : Nat) : (tempL M a b c).Y.values = tempCoords M.Y b := rfl
+theorem tempL_Z (M : Smear.Lattice K) (a b c : Nat) : (tempL M a b c).Z.values = tempCoords M.Z c := rfl
+
+theorem eq_map_range {β : Type} (l : List β) (d : β) : l = (List.range l.length).map (fun i => l.getD i d) := by
+  apply List.ext_getElem
+  · simp
+  · intro i h1 h2
+    simp [List.getD_eq_getElem?_getD, List.getElem?_eq_getElem h1]
+
+/-- three nested comprehensions over lists = one over `ndindex` of their lengths -/
+theorem nested_eq_ndindex {β γ δ ε : Type} (px : List β) (py : List γ) (pz : List δ) (f : β → γ → δ → ε)
+    (d1 : β) (d2 : γ) (d3 : δ) :
+    px.flatMap (fun a => py.flatMap (fun b => pz.map (fun c => f a b c))) =
+      (ndindex px.length py.length pz.length).map
+        (fun p => f (px.getD p.1 d1) (py.getD p.2.1 d2) (pz.getD p.2.2 d3)) := by
+  conv_lhs => rw [eq_map_range px d1, eq_map_range py d2, eq_map_range pz d3]
+  simp only [ndindex, List.map_flatMap, List.flatMap_map, List.map_map, Function.comp_def]
+
+/-- the deposits of `pick (… zip …)` folded with `addAt`, written as a fold over the positions -/
+theorem foldl_pick_map {ι : Type} (l : List ι) (T : ι → Option Nat) (W : ι → K) (g : List K) :
+    (Smear.pick (l.map (fun q => (T q, W q)))).foldl addAt g =
+      l.foldl (fun G q => match T q with | none => G | some t => addAt G (t, W q)) g := by
+  induction l generalizing g with
+  | nil => rfl
+  | cons q l ih =>
+    cases h : T q with
+    | none => simp [Smear.pick, h] at ih ⊢; exact ih g
+    | some t => simp [Smear.pick, h] at ih ⊢; exact ih _
+
+/-- the point the code hands to the nearest-node access lies between the first and the last node -/
+theorem clamp_inR (A : Axis K) (w : A.WF) (v : K) : InR A.values (minP (maxP v A.lo) A.hi) := by
+  have hn := w.two
+  have hlt := w.lt
+  refine ⟨A.lo, A.hi, ?_, ?_, ?_, ?_⟩
+  · rw [w.values_eq]
+    obtain ⟨k, hk⟩ : ∃ k, A.n = k + 1 := ⟨A.n - 1, by omega⟩
+    rw [hk, List.range_succ_eq_map]
+    simp
+  · rw [w.values_eq, List.getLast?_eq_getElem?]
+    simp only [List.length_map, List.length_range, List.getElem?_map]
+    rw [List.getElem?_range (by omega)]
+    simp only [Option.map_some, Option.some.injEq]
+    exact w.hi_eq.symm
+  · unfold minP maxP; split_ifs <;> linarith
+  · unfold minP maxP; split_ifs <;> linarith
+
+theorem nearest_lt (A : Axis K) (w : A.WF) (v : K) : nearest A.values v < A.n := by
+  have hn := w.two
+  unfold nearest
+  have h := Smear.argminFirst_lt (A.values.map (fun u => Smear.absV (v - u))) (by
+    intro h
+    have := congrArg List.length h
+    simp [values_length] at this
+    omega)
+  simpa [values_length] using h
+
+theorem getD_map' {β γ : Type} (l : List β) (f : β → γ) (i : Nat) (hi : i < l.length) (d : β) (d' : γ) :
+    (l.map f).getD i d' = f (l.getD i d) := by
+  simp [List.getD_eq_getElem?_getD, List.getElem?_eq_getElem hi]
+
+theorem modify_eq_set_getD {β : Type} (l : List β) (i : Nat) (f : β → β) (d : β) (h : i < l.length) :
+    l.modify i f = l.set i (f (l.getD i d)) := by
+  have : Inhabited β := ⟨d⟩
+  rw [List.modify_eq_set, List.getD_eq_getElem?_getD, List.getElem?_eq_getElem h]
+  simp
+
+theorem target_none1 (Ls : Smear.Lattice K) (b c : Option Nat) : target Ls none b c = none := rfl
+theorem target_none2 (Ls : Smear.Lattice K) (a c : Option Nat) : target Ls a none c = none := by cases a <;> rfl
+theorem target_none3 (Ls : Smear.Lattice K) (a b : Option Nat) : target Ls a b none = none := by
+  cases a <;> cases b <;> rfl
+theorem target_some (Ls : Smear.Lattice K) (a b c : Nat) : target Ls (some a) (some b) (some c) = some (Ls.flatIdx a b c) := rfl
+
+/-- what one pass of the loop of `add_same_spaced_grid` does to the flat grid (`q` = flat position in the other lattice) -/
+def sameStep (Ls : Smear.Lattice K) (PX PY PZ : List (Option Nat)) (B C : Nat) (tg : List K) (G : List K) (q : Nat) : List K :=
+  match target Ls (PX.getD (unflat B C q).1 none) (PY.getD (unflat B C q).2.1 none) (PZ.getD (unflat B C q).2.2 none) with
+  | none => G
+  | some t => addAt G (t, tg.getD q zero)
+
+theorem length_sameStep (Ls : Smear.Lattice K) (PX PY PZ : List (Option Nat)) (B C : Nat) (tg G : List K) (q : Nat) :
+    (sameStep Ls PX PY PZ B C tg G q).length = G.length := by
+  unfold sameStep
+  split <;> simp [Smear.length_addAt]
+
+theorem length_foldl_sameStep (Ls : Smear.Lattice K) (PX PY PZ : List (Option Nat)) (B C : Nat) (tg : List K) (l : List Nat)
+    (G : List K) : (l.foldl (sameStep Ls PX PY PZ B C tg) G).length = G.length := by
+  induction l generalizing G with
+  | nil => rfl
+  | cons q l ih => rw [List.foldl_cons, ih, length_sameStep]
+
+/-- the spacing test of `add_same_spaced_grid` passes for the temporary lattice (`spacingOK` of the model) -/
+theorem spacing_fact (A : Axis K) (w : A.WF) (num : Nat) (t : K)
+    (h : (if 1 < 2 * num + 1 then some (Axis.spacing ⟨-(((num : Nat) : K) * A.spacing), ((num : Nat) : K) * A.spacing, 2 * num + 1⟩) else none) = some t) :
+    absG (A.spacing - t) < ((1 : Nat) : K) / ((1000 : Nat) : K) := by
+  have hok := w.spacingOK num
+  unfold Smear.spacingOK at hok
+  rcases Nat.eq_zero_or_pos num with h0 | h0
+  · subst h0; simp at h
+  · have h1 : 1 < 2 * num + 1 := by omega
+    rw [if_pos h1] at h
+    injection h with h
+    subst h
+    have hne : ¬ num = 0 := by omega
+    simp only [hne, if_false, decide_eq_true_eq] at hok
+    exact hok
+
+/-- **`add_same_spaced_grid` (generated) = the model's deposit of one particle.**  Called as `add_particle_data` calls it
+(the other lattice is the temporary lattice of half-widths `p.numX/Y/Z` holding `tg`, centred at the coordinates of the
+node closest to the particle), it adds `tg` node by node at the model's `targets`. -/
+theorem addSameSpacedGrid_gen (Ls : Smear.Lattice K) (w : Ls.WF) (p : Part K) (g : List K) (hg : g.length = Ls.size)
+    (tg : List K) (htg : tg.length = (2 * p.numX + 1) * (2 * p.numY + 1) * (2 * p.numZ + 1)) (ox oy oz : Option K) :
+    Gen.Smear.addSameSpacedGrid (latOf Ls g) (attrsOf Ls ox oy oz)
+        (latOf (tempL Ls p.numX p.numY p.numZ) tg) (attrsOf (tempL Ls p.numX p.numY p.numZ) none none none)
+        (Ls.X.values.getD (closest Ls.X.values p.x) zero) (Ls.Y.values.getD (closest Ls.Y.values p.y) zero)
+        (Ls.Z.values.getD (closest Ls.Z.values p.z) zero)
+      = .ok (latOf Ls ((Smear.pick ((targets Ls p).zip tg)).foldl addAt g)) := by
+  have hnx := w.X.two
+  have hny := w.Y.two
+  have hnz := w.Z.two
+  set a := p.numX with ha
+  set b := p.numY with hb
+  set c := p.numZ with hc
+  set cX := Ls.X.values.getD (closest Ls.X.values p.x) zero with hcX
+  set cY := Ls.Y.values.getD (closest Ls.Y.values p.y) zero with hcY
+  set cZ := Ls.Z.values.getD (closest Ls.Z.values p.z) zero with hcZ
+  set PX := placeAxis Ls.X a p.x with hPX
+  set PY := placeAxis Ls.Y b p.y with hPY
+  set PZ := placeAxis Ls.Z c p.z with hPZ
+  have lPX : PX.length = 2 * a + 1 := Smear.placeAxis_length _ _ _
+  have lPY : PY.length = 2 * b + 1 := Smear.placeAxis_length _ _ _
+  have lPZ : PZ.length = 2 * c + 1 := Smear.placeAxis_length _ _ _
+  have lTX : (tempCoords Ls.X a).length = 2 * a + 1 := Smear.linspace_length _ _ _
+  have lTY : (tempCoords Ls.Y b).length = 2 * b + 1 := Smear.linspace_length _ _ _
+  have lTZ : (tempCoords Ls.Z c).length = 2 * c + 1 := Smear.linspace_length _ _ _
+  unfold Gen.Smear.addSameSpacedGrid
+  -- the spacings of self are known, the spacing test passes
+  have s1 : (attrsOf Ls ox oy oz).spacing_x = some Ls.X.spacing := by simp [attrsOf]; omega
+  have s2 : (attrsOf Ls ox oy oz).spacing_y = some Ls.Y.spacing := by simp [attrsOf]; omega
+  have s3 : (attrsOf Ls ox oy oz).spacing_z = some Ls.Z.spacing := by simp [attrsOf]; omega
+  simp only [s1, s2, s3]
+  have t1 : ∀ t, (attrsOf (tempL Ls a b c) none none none).spacing_x = some t →
+      absG (Ls.X.spacing - t) < ((1 : Nat) : K) / ((1000 : Nat) : K) := fun t h => spacing_fact Ls.X w.X a t h
+  have t2 : ∀ t, (attrsOf (tempL Ls a b c) none none none).spacing_y = some t →
+      absG (Ls.Y.spacing - t) < ((1 : Nat) : K) / ((1000 : Nat) : K) := fun t h => spacing_fact Ls.Y w.Y b t h
+  have t3 : ∀ t, (attrsOf (tempL Ls a b c) none none none).spacing_z = some t →
+      absG (Ls.Z.spacing - t) < ((1 : Nat) : K) / ((1000 : Nat) : K) := fun t h => spacing_fact Ls.Z w.Z c t h
+  rw [if_pos (by
+    simp only [Bool.and_eq_true]
+    refine ⟨?_, ?_, ?_⟩
+    · cases hh : (attrsOf (tempL Ls a b c) none none none).spacing_x with
+      | none => rfl
+      | some t => simpa using t1 t hh
+    · cases hh : (attrsOf (tempL Ls a b c) none none none).spacing_y with
+      | none => rfl
+      | some t => simpa using t2 t hh
+    · cases hh : (attrsOf (tempL Ls a b c) none none none).spacing_z with
+      | none => rfl
+      | some t => simpa using t3 t hh)]
+  -- the loop
+  rw [foldlM_ndindex]
+  simp only [latOf_nx, latOf_ny, latOf_nz, tempL_Xn, tempL_Yn, tempL_Zn]
+  have hN : (tempL Ls a b c).X.n * (tempL Ls a b c).Y.n * (tempL Ls a b c).Z.n = (2 * a + 1) * (2 * b + 1) * (2 * c + 1) := rfl
+  rw [foldlM_range_eq _ (fun q => latOf Ls ((List.range q).foldl (sameStep Ls PX PY PZ (2 * b + 1) (2 * c + 1) tg) g))
+    _ (latOf Ls g) (by simp)]
+  · -- after the loop: the fold over positions is the model's fold over the deposits
+    simp only [bind_ok]
+    refine congrArg _ (congrArg _ ?_)
+    have hT : targets Ls p = (List.range ((2 * a + 1) * (2 * b + 1) * (2 * c + 1))).map (fun q =>
+        target Ls (PX.getD (unflat (2 * b + 1) (2 * c + 1) q).1 none) (PY.getD (unflat (2 * b + 1) (2 * c + 1) q).2.1 none)
+          (PZ.getD (unflat (2 * b + 1) (2 * c + 1) q).2.2 none)) := by
+      unfold targets
+      rw [nested_eq_ndindex PX PY PZ (fun a b c => target Ls a b c) none none none, lPX, lPY, lPZ, ndindex_eq, List.map_map]
+      rfl
+    have hW : tg = (List.range ((2 * a + 1) * (2 * b + 1) * (2 * c + 1))).map (fun q => tg.getD q zero) := by
+      conv_lhs => rw [eq_map_range tg zero, htg]
+    rw [hT]
+    conv_rhs => rw [hW]
+    rw [List.zip_map', foldl_pick_map]
+    rfl
+  · -- one pass of the loop
+    intro q hq
+    obtain ⟨hi, hj, hk⟩ := unflat_lt hq
+    set i := (unflat (2 * b + 1) (2 * c + 1) q).1 with hi'
+    set j := (unflat (2 * b + 1) (2 * c + 1) q).2.1 with hj'
+    set k := (unflat (2 * b + 1) (2 * c + 1) q).2.2 with hk'
+    set G := (List.range q).foldl (sameStep Ls PX PY PZ (2 * b + 1) (2 * c + 1) tg) g with hG
+    have lG : G.length = Ls.size := by rw [hG, length_foldl_sameStep, hg]
+    have hnext : (List.range (q + 1)).foldl (sameStep Ls PX PY PZ (2 * b + 1) (2 * c + 1) tg) g
+        = sameStep Ls PX PY PZ (2 * b + 1) (2 * c + 1) tg G q := by
+      rw [List.range_succ, List.foldl_append]; rfl
+    rw [hnext]
+    have hcoord := getCoordinates_nat (latOf (tempL Ls a b c) tg) i j k (values_length _) (values_length _) (values_length _)
+      hi hj hk zero
+    simp only [latOf_xs, latOf_ys, latOf_zs, tempL_X, tempL_Y, tempL_Z] at hcoord
+    change (Gen.Smear.getCoordinates (latOf (tempL Ls a b c) tg) (i : Int) (j : Int) (k : Int)).bind _ = _
+    rw [hcoord]
+    simp only [bind_ok, latOf_xmin, latOf_xmax, latOf_ymin, latOf_ymax, latOf_zmin, latOf_zmax]
+    set tx := (tempCoords Ls.X a).getD i zero with htx
+    set ty := (tempCoords Ls.Y b).getD j zero with hty
+    set tz := (tempCoords Ls.Z c).getD k zero with htz
+    have ePX : PX.getD i none = place1 Ls.X cX tx := by
+      rw [hPX, placeAxis_eq_map, getD_map' _ _ _ (by rw [lTX]; exact hi) zero none]
+    have ePY : PY.getD j none = place1 Ls.Y cY ty := by
+      rw [hPY, placeAxis_eq_map, getD_map' _ _ _ (by rw [lTY]; exact hj) zero none]
+    have ePZ : PZ.getD k none = place1 Ls.Z cZ tz := by
+      rw [hPZ, placeAxis_eq_map, getD_map' _ _ _ (by rw [lTZ]; exact hk) zero none]
+    unfold sameStep
+    rw [ePX, ePY, ePZ]
+    have hgl : (latOf Ls G).grid.length = (latOf Ls G).nx * (latOf Ls G).ny * (latOf Ls G).nz := lG
+    have hol : (latOf (tempL Ls a b c) tg).grid.length =
+        (latOf (tempL Ls a b c) tg).nx * (latOf (tempL Ls a b c) tg).ny * (latOf (tempL Ls a b c) tg).nz := htg
+    have hraw := rawGet_nat (latOf (tempL Ls a b c) tg) hol i j k hi hj hk zero
+    have hfl : flat (2 * b + 1) (2 * c + 1) i j k = q := Lattice.flat_unflat q
+    simp only [latOf_ny, latOf_nz, latOf_grid] at hraw
+    change (latOf (tempL Ls a b c) tg).rawGet (i : Int) (j : Int) (k : Int) = .ok (tg.getD (flat (2 * b + 1) (2 * c + 1) i j k) zero) at hraw
+    rw [hfl] at hraw
+    simp only [place1, Smear.edgeTolFactor]
+    by_cases h1 : tx + cX < Ls.X.lo - ((1 : Nat) : K) / ((1000000000 : Nat) : K) * Ls.X.spacing
+    · simp only [h1, place1, Smear.edgeTolFactor, not_false_eq_true, decide_true, decide_false, Bool.true_or, Bool.or_true, Bool.false_or, Bool.or_false, Bool.or_self, Bool.false_eq_true, if_true, if_false, ite_true, ite_false, target_none1, target_none2, target_none3, target_some]
+    by_cases h2 : Ls.X.hi + ((1 : Nat) : K) / ((1000000000 : Nat) : K) * Ls.X.spacing < tx + cX
+    · simp only [h1, h2, place1, Smear.edgeTolFactor, not_false_eq_true, decide_true, decide_false, Bool.true_or, Bool.or_true, Bool.false_or, Bool.or_false, Bool.or_self, Bool.false_eq_true, if_true, if_false, ite_true, ite_false, target_none1, target_none2, target_none3, target_some]
+    by_cases h3 : ty + cY < Ls.Y.lo - ((1 : Nat) : K) / ((1000000000 : Nat) : K) * Ls.Y.spacing
+    · simp only [h1, h2, h3, place1, Smear.edgeTolFactor, not_false_eq_true, decide_true, decide_false, Bool.true_or, Bool.or_true, Bool.false_or, Bool.or_false, Bool.or_self, Bool.false_eq_true, if_true, if_false, ite_true, ite_false, target_none1, target_none2, target_none3, target_some]
+    by_cases h4 : Ls.Y.hi + ((1 : Nat) : K) / ((1000000000 : Nat) : K) * Ls.Y.spacing < ty + cY
+    · simp only [h1, h2, h3, h4, place1, Smear.edgeTolFactor, not_false_eq_true, decide_true, decide_false, Bool.true_or, Bool.or_true, Bool.false_or, Bool.or_false, Bool.or_self, Bool.false_eq_true, if_true, if_false, ite_true, ite_false, target_none1, target_none2, target_none3, target_some]
+    by_cases h5 : tz + cZ < Ls.Z.lo - ((1 : Nat) : K) / ((1000000000 : Nat) : K) * Ls.Z.spacing
+    · simp only [h1, h2, h3, h4, h5, place1, Smear.edgeTolFactor, not_false_eq_true, decide_true, decide_false, Bool.true_or, Bool.or_true, Bool.false_or, Bool.or_false, Bool.or_self, Bool.false_eq_true, if_true, if_false, ite_true, ite_false, target_none1, target_none2, target_none3, target_some]
+    by_cases h6 : Ls.Z.hi + ((1 : Nat) : K) / ((1000000000 : Nat) : K) * Ls.Z.spacing < tz + cZ
+    · simp only [h1, h2, h3, h4, h5, h6, place1, Smear.edgeTolFactor, not_false_eq_true, decide_true, decide_false, Bool.true_or, Bool.or_true, Bool.false_or, Bool.or_false, Bool.or_self, Bool.false_eq_true, if_true, if_false, ite_true, ite_false, target_none1, target_none2, target_none3, target_some]
+    -- the node is deposited
+    have iX := clamp_inR Ls.X w.X (tx + cX)
+    have iY := clamp_inR Ls.Y w.Y (ty + cY)
+    have iZ := clamp_inR Ls.Z w.Z (tz + cZ)
+    have nX := nearest_lt Ls.X w.X (minP (maxP (tx + cX) Ls.X.lo) Ls.X.hi)
+    have nY := nearest_lt Ls.Y w.Y (minP (maxP (ty + cY) Ls.Y.lo) Ls.Y.hi)
+    have nZ := nearest_lt Ls.Z w.Z (minP (maxP (tz + cZ) Ls.Z.lo) Ls.Z.hi)
+    have hget := getValueNN_inR (latOf Ls G) hgl _ _ _ iX iY iZ nX nY nZ zero
+    have hset := fun v => setValueNN_inR (latOf Ls G) hgl _ _ _ v iX iY iZ nX nY nZ
+    simp only [latOf_xs, latOf_ys, latOf_zs, latOf_ny, latOf_nz, latOf_grid, latOf_with] at hget hset
+    simp only [h1, h2, h3, h4, h5, h6, place1, Smear.edgeTolFactor, not_false_eq_true, decide_true, decide_false, Bool.true_or, Bool.or_true, Bool.false_or, Bool.or_false, Bool.or_self, Bool.false_eq_true, if_true, if_false, ite_true, ite_false, target_none1, target_none2, target_none3, target_some, hget, hraw, bind_ok, Gen.Smear.unwrapOpt, hset, addAt,
+      Smear.Lattice.flatIdx]
+    refine congrArg _ (congrArg _ ?_)
+    have hidx : flat Ls.Y.n Ls.Z.n (nearest Ls.X.values (minP (maxP (tx + cX) Ls.X.lo) Ls.X.hi))
+        (nearest Ls.Y.values (minP (maxP (ty + cY) Ls.Y.lo) Ls.Y.hi))
+        (nearest Ls.Z.values (minP (maxP (tz + cZ) Ls.Z.lo) Ls.Z.hi)) < G.length := by
+      rw [lG]; exact Smear.flatIdx_lt Ls nX nY nZ
+    rw [modify_eq_set_getD _ _ _ zero (by simpa [flat] using hidx)]
+    rfl
+
+end same
+
 end SparkxVerif.SmearGen
